@@ -113,7 +113,7 @@ def r2_handler_discipline(ctx, sym):
         n += 1
         rec, raised = ob['rec'], ob['raised']
         caps = rec.named('_capture_exception')
-        tag = '_execute[%s raises %s]' % (where, kind)
+        tag = '_execute[%s raises %s]' % (where, ob['label'])
         contained = kind is not None and (issubclass(getattr(builtins, kind), Exception) or kind == 'SystemExit')
         if kind is None:
             ctx.check(raised is None and not caps and ob['value'] is ob['me'], 'R2', tag + ':clean', mod, fn,
@@ -681,6 +681,13 @@ def r5_block_list(ctx, sym):
         elif name != 'helper':
             ctx.check(outcome[0] == 'returns', 'R5', '_restricted_import:allowed[%s]' % name, mm, ri,
                       "importing %s is refused (%s)" % (name, outcome[1]), "`import %s` fails in the sandbox" % name)
+    outcomes, runs = restricted_import_failing_helper(ctx, sym)
+    ctx.check(all(o == ('raises', 'ZeroDivisionError') for o in outcomes) and runs == len(outcomes), 'R5',
+              '_restricted_import:failing-helper-fails-every-time', mm, ri,
+              "a submission file whose body raises ZeroDivisionError, imported in %d successive executions: %r (the file "
+              "was executed %d time(s))" % (len(outcomes), outcomes, runs),
+              "run() twice on `import helper` where helper.py divides by zero: the second run reports no exception and "
+              "no feedback")
     cm = mod.func('Sandbox.clear_mocks')
     ctx.analysed_function(mod, cm)
     rec2 = symexec.Recorder()
@@ -739,6 +746,39 @@ def restricted_import_cells(ctx, sym):
             raise AnalysisError("_restricted_import is outside the decidable fragment: %s" % e)
         yield name, g, l, fromlist, level, outcome, rec.named('__import__'), rec.named('_import'), result, \
             student_module, rec.named('importlib.import_module')
+
+
+def restricted_import_failing_helper(ctx, sym, times=3):
+    """The import replacement called repeatedly for a submission file whose body raises every time it is executed:
+    the outcomes of the successive imports, each ('returns', value) or ('raises', kind)."""
+    from .. import symexec
+    from ..fdeval import Obj as _Obj, Raised, Inconclusive
+    mm = ctx.repo.module(MOCKED)
+    maker = mm.func('create_import_function')
+    rec = symexec.Recorder()
+    sandbox = _Obj('sandbox', threaded=False)
+
+    def failing_import(*a, **k):
+        rec.events.append(('_import', a, k))
+        raise Raised('ZeroDivisionError', 'division by zero')
+    symexec.method(sandbox, '_import', failing_import)
+    report = _Obj('report', submission=_Obj('submission', files={'helper.py': 'K = 1 / 0'}))
+    real = rec.stub('__import__', ret=_Obj('module-object'))
+    real._fd_callable = True
+    fd = symexec.new_fd(sym, mm, calls={'__import__': real}, extra={'ORIGINAL_BUILTINS': {'__import__': real},
+                                                                   'sys.modules': {}})
+    closure, raised = symexec.run(fd, maker, [report, sandbox], what='create_import_function')
+    if raised is not None or not callable(closure):
+        raise AnalysisError("create_import_function does not return the import replacement")
+    outcomes = []
+    for _ in range(times):
+        try:
+            outcomes.append(('returns', closure('helper', {'__name__': '__main__'}, {}, (), 0)))
+        except Raised as e:
+            outcomes.append(('raises', e.kind))
+        except Inconclusive as e:
+            raise AnalysisError("_restricted_import is outside the decidable fragment: %s" % e)
+    return outcomes, len(rec.named('_import'))
 
 
 def r6_threads(ctx, sym):
